@@ -804,4 +804,25 @@ theorem stepIntegrate_ok (s : Script α) (smt : SMType) (st : St α) (h : integr
 
 end steps
 
+/-! ### a scalar type on which the model computes in the kernel (non-vacuity witnesses) -/
+
+/-- fixed-point scalars (hundredths): every literal of Model.lean is exactly representable -/
+structure Cent where
+  n : Int
+  deriving DecidableEq
+
+instance : LT Cent := ⟨fun a b => a.n < b.n⟩
+instance : DecidableRel (fun a b : Cent => a < b) := fun a b => inferInstanceAs (Decidable (a.n < b.n))
+instance : Sub Cent := ⟨fun a b => ⟨a.n - b.n⟩⟩
+instance : Neg Cent := ⟨fun a => ⟨-a.n⟩⟩
+instance : OfScientific Cent :=
+  ⟨fun m s e => ⟨if s then (m * 100 / 10 ^ e : Nat) else (m * 100 * 10 ^ e : Nat)⟩⟩
+
+/-- a script in which every step succeeds (integration with the consistent tangent operator) -/
+def Cent.script : Script Cent :=
+  { traits := ⟨true, true, true, true⟩, fs := false, smflag := 0, k0 := 4.0, rdt0 := 1.0, policy := .none,
+    msgbuf := true, init := .ok, oob := .inside, cb := .ok, ap := .ok, apF := 1.0, integ := .success,
+    apo := .ok, apoF := 1.0, minTsf := 0.1, gto := .ok, toEmpty := false, ie := .ok, de := .ok, sos := .ok,
+    pred := .success }
+
 end TfelVerif.C39
